@@ -114,6 +114,26 @@ func raiseCompileError(context *funcContext, line int, format string, args ...in
 	panic(&CompileError{context: context, Line: line, Message: msg})
 }
 
+// The compiler recurses once for every statement nested in a block or a function body and once for
+// every expression nested in another one, so the nesting it accepts must be limited like PUC-Lua
+// limits it (LUAI_MAXCCALLS, 200 levels there): overflowing the goroutine stack is a fatal error
+// that kills the process, it is not a panic that Compile could turn into an error.
+// Expressions get the larger limit because the left operands of a long "a + b + c ..." and the
+// prefixes of a long "a.b.c ..." nest in the syntax tree although they are no levels for PUC-Lua.
+const maxBlockLevels = 4000
+const maxExprLevels = 200000
+
+func enterLevel(context *funcContext, level *int, limit int, pos ast.PositionHolder) {
+	*level++
+	if *level > limit {
+		raiseCompileError(context, sline(pos), "chunk has too many syntax levels")
+	}
+}
+
+func leaveLevel(level *int) {
+	*level--
+}
+
 func isVarArgReturnExpr(expr ast.Expr) bool {
 	switch ex := expr.(type) {
 	case *ast.FuncCallExpr:
@@ -420,6 +440,8 @@ type funcContext struct {
 	labelPc         map[int]int
 	gotosCount      int
 	unresolvedGotos map[int]*gotoLabelDesc
+	blockLevel      int
+	exprLevel       int
 }
 
 func newFuncContext(sourcename string, parent *funcContext) *funcContext {
@@ -436,6 +458,10 @@ func newFuncContext(sourcename string, parent *funcContext) *funcContext {
 		unresolvedGotos: map[int]*gotoLabelDesc{},
 	}
 	fc.Blocks = []*codeBlock{fc.Block}
+	if parent != nil {
+		fc.blockLevel = parent.blockLevel
+		fc.exprLevel = parent.exprLevel
+	}
 	return fc
 }
 
@@ -673,6 +699,8 @@ func compileBlock(context *funcContext, chunk []ast.Stmt) { // {{{
 } // }}}
 
 func compileStmt(context *funcContext, stmt ast.Stmt, isLastStmt bool) { // {{{
+	enterLevel(context, &context.blockLevel, maxBlockLevels, stmt)
+	defer leaveLevel(&context.blockLevel)
 	switch st := stmt.(type) {
 	case *ast.AssignStmt:
 		compileAssignStmt(context, st)
@@ -963,6 +991,8 @@ func compileIfStmt(context *funcContext, stmt *ast.IfStmt) { // {{{
 } // }}}
 
 func compileBranchCondition(context *funcContext, reg int, expr ast.Expr, thenlabel, elselabel int, hasnextcond bool) { // {{{
+	enterLevel(context, &context.exprLevel, maxExprLevels, expr)
+	defer leaveLevel(&context.exprLevel)
 	// TODO folding constants?
 	code := context.Code
 	flip := 0
@@ -1184,6 +1214,8 @@ func compileGotoStmt(context *funcContext, stmt *ast.GotoStmt) { // {{{
 } // }}}
 
 func compileExpr(context *funcContext, reg int, expr ast.Expr, ec *expcontext) int { // {{{
+	enterLevel(context, &context.exprLevel, maxExprLevels, expr)
+	defer leaveLevel(&context.exprLevel)
 	code := context.Code
 	sreg := savereg(ec, reg)
 	sused := 1
@@ -1311,11 +1343,14 @@ func compileExprWithMVPropagation(context *funcContext, expr ast.Expr, reg *int,
 	compileExprWithPropagation(context, expr, reg, save, context.Code.PropagateMV)
 } // }}}
 
-func constFold(exp ast.Expr) ast.Expr { // {{{
+func constFold(context *funcContext, exp ast.Expr, level int) ast.Expr { // {{{
+	if level > maxExprLevels {
+		raiseCompileError(context, sline(exp), "chunk has too many syntax levels")
+	}
 	switch expr := exp.(type) {
 	case *ast.ArithmeticOpExpr:
-		lvalue, lisconst := lnumberValue(constFold(expr.Lhs))
-		rvalue, risconst := lnumberValue(constFold(expr.Rhs))
+		lvalue, lisconst := lnumberValue(constFold(context, expr.Lhs, level+1))
+		rvalue, risconst := lnumberValue(constFold(context, expr.Rhs, level+1))
 		if lisconst && risconst {
 			switch expr.Operator {
 			case "+":
@@ -1337,7 +1372,7 @@ func constFold(exp ast.Expr) ast.Expr { // {{{
 			return expr
 		}
 	case *ast.UnaryMinusOpExpr:
-		expr.Expr = constFold(expr.Expr)
+		expr.Expr = constFold(context, expr.Expr, level+1)
 		if value, ok := lnumberValue(expr.Expr); ok {
 			return &constLValueExpr{Value: LNumber(-value)}
 		}
@@ -1474,7 +1509,7 @@ func compileTableExpr(context *funcContext, reg int, ex *ast.TableExpr, ec *expc
 } // }}}
 
 func compileArithmeticOpExpr(context *funcContext, reg int, expr *ast.ArithmeticOpExpr, ec *expcontext) { // {{{
-	exp := constFold(expr)
+	exp := constFold(context, expr, context.exprLevel)
 	if ex, ok := exp.(*constLValueExpr); ok {
 		exp.SetLine(sline(expr))
 		compileExpr(context, reg, ex, ec)
@@ -1516,6 +1551,10 @@ func compileStringConcatOpExpr(context *funcContext, reg int, expr *ast.StringCo
 			current = nil
 		}
 	}
+	if context.exprLevel+crange > maxExprLevels {
+		// fail now: every operand of the chain would walk the rest of the chain first
+		raiseCompileError(context, sline(expr), "chunk has too many syntax levels")
+	}
 	a := savereg(ec, reg)
 	basereg := reg
 	reg += compileExpr(context, reg, expr.Lhs, ecnone(0))
@@ -1532,7 +1571,7 @@ func compileUnaryOpExpr(context *funcContext, reg int, expr ast.Expr, ec *expcon
 	var operandexpr ast.Expr
 	switch ex := expr.(type) {
 	case *ast.UnaryMinusOpExpr:
-		exp := constFold(ex)
+		exp := constFold(context, ex, context.exprLevel)
 		if lvexpr, ok := exp.(*constLValueExpr); ok {
 			exp.SetLine(sline(expr))
 			compileExpr(context, reg, lvexpr, ec)
@@ -1629,6 +1668,8 @@ func compileLogicalOpExpr(context *funcContext, reg int, expr *ast.LogicalOpExpr
 } // }}}
 
 func compileLogicalOpExprAux(context *funcContext, reg int, expr ast.Expr, ec *expcontext, thenlabel, elselabel int, hasnextcond bool, lb *lblabels) { // {{{
+	enterLevel(context, &context.exprLevel, maxExprLevels, expr)
+	defer leaveLevel(&context.exprLevel)
 	// TODO folding constants?
 	code := context.Code
 	flip := 0
